@@ -97,8 +97,43 @@ type ViolationRec struct {
 	Count  int    `json:"count"`
 }
 
+// cfgEnv is the snapshot of the worker's configuration variables taken when WorkerMain starts. The process
+// environment itself is then reduced to a fixed set of variables: go-task turns every environment variable
+// into a template variable, so the *set* of variables is an input of the system under test (it changes map
+// sizes and with them the draws of MapOrder) and must be the same in a check run and in a replay.
+var cfgEnv = map[string]string{}
+
+// Cfg returns a configuration variable of the worker (VERIF_*), as it was when the worker started.
+func Cfg(name string) string {
+	if v, ok := cfgEnv[name]; ok {
+		return v
+	}
+	return os.Getenv(name)
+}
+
+func sanitiseEnv() {
+	if len(cfgEnv) > 0 {
+		return
+	}
+	for _, kv := range os.Environ() {
+		if i := strings.IndexByte(kv, '='); i > 0 {
+			cfgEnv[kv[:i]] = kv[i+1:]
+		}
+	}
+	root := cfgEnv["VERIF_WORKROOT"]
+	if root == "" {
+		root = os.TempDir()
+	}
+	os.Clearenv()
+	os.Setenv("PATH", "/usr/bin:/bin")
+	os.Setenv("HOME", root)
+	os.Setenv("TMPDIR", root)
+	os.Setenv("NO_COLOR", "1")
+	os.Setenv("TASK_X_REMOTE_TASKFILES", "1")
+}
+
 func envInt(name string, def int64) int64 {
-	if v := os.Getenv(name); v != "" {
+	if v := Cfg(name); v != "" {
 		if n, err := strconv.ParseInt(v, 10, 64); err == nil {
 			return n
 		}
@@ -122,8 +157,9 @@ func slug(s string) string {
 //	VERIF_REPLAY=<file>  : replay mode; exit status 1 when the violation reproduces, 0 when not
 //	VERIF_DUMP=1         : print the rendered case of every run (debugging)
 func WorkerMain(t *testing.T, engine, family string, c Case) {
-	prop := os.Getenv("VERIF_PROP")
-	tier := os.Getenv("VERIF_TIER")
+	sanitiseEnv()
+	prop := Cfg("VERIF_PROP")
+	tier := Cfg("VERIF_TIER")
 	if tier == "" {
 		tier = "quick"
 	}
@@ -149,7 +185,7 @@ func WorkerMain(t *testing.T, engine, family string, c Case) {
 		}
 	}
 
-	if path := os.Getenv("VERIF_REPLAY"); path != "" {
+	if path := Cfg("VERIF_REPLAY"); path != "" {
 		b, err := os.ReadFile(path)
 		if err != nil {
 			fmt.Fprintln(os.Stderr, "replay:", err)
@@ -160,11 +196,23 @@ func WorkerMain(t *testing.T, engine, family string, c Case) {
 			fmt.Fprintln(os.Stderr, "replay:", err)
 			os.Exit(2)
 		}
+		if n := envInt("VERIF_REPLAY_WARMUP", 0); n > 0 {
+			// debugging aid: run other cases first to expose state that leaks between runs of one process
+			for i := int64(0); i < n; i++ {
+				w := NewRandomChoices(uint64(r.Seed), uint64(i))
+				o := c(t, w, r.Property, r.Tier, false)
+				_ = o
+			}
+		}
 		ch := NewReplayChoices(r.Choices)
 		out := c(t, ch, r.Property, r.Tier, true)
 		if out.HarnessError != "" {
 			fmt.Fprintln(os.Stderr, "HARNESS-ERROR:", out.HarnessError)
 			os.Exit(2)
+		}
+		if Cfg("VERIF_REPLAY_PRINT") != "" {
+			b, _ := json.MarshalIndent(out.Rendered, "", " ")
+			fmt.Printf("RENDERED %s\n", b)
 		}
 		reproduced := false
 		for _, v := range out.Violations {
@@ -175,9 +223,9 @@ func WorkerMain(t *testing.T, engine, family string, c Case) {
 		// the rendered case must be identical, otherwise the replay diverged
 		want, _ := json.Marshal(dropSchedule(r.Rendered))
 		got, _ := json.Marshal(dropSchedule(normJSON(out.Rendered)))
-		if string(want) != string(got) && os.Getenv("VERIF_REPLAY_LAX") == "" {
+		if string(want) != string(got) && Cfg("VERIF_REPLAY_LAX") == "" {
 			fmt.Printf("REPLAY-DIVERGED property=%s file=%s\n", r.Property, path)
-			if os.Getenv("VERIF_DUMP") != "" {
+			if Cfg("VERIF_DUMP") != "" {
 				fmt.Printf("want: %s\ngot:  %s\n", want, got)
 			}
 			os.Exit(2)
@@ -194,13 +242,13 @@ func WorkerMain(t *testing.T, engine, family string, c Case) {
 	from := uint64(envInt("VERIF_RUN_FROM", 0))
 	count := uint64(envInt("VERIF_RUN_COUNT", 100))
 	budget := time.Duration(envInt("VERIF_BUDGET_S", 3600)) * time.Second
-	replayDir := os.Getenv("VERIF_REPLAY_DIR")
+	replayDir := Cfg("VERIF_REPLAY_DIR")
 	if replayDir == "" {
 		replayDir = os.TempDir()
 	}
-	dump := os.Getenv("VERIF_DUMP") != ""
+	dump := Cfg("VERIF_DUMP") != ""
 	maxShrink := int(envInt("VERIF_SHRINK_TRIES", 200))
-	known := loadKnown(os.Getenv("VERIF_KNOWN"))
+	known := loadKnown(Cfg("VERIF_KNOWN"))
 
 	sum := &Summary{Property: prop, Engine: engine, Family: family, Reach: map[string]int{}, Strategies: map[string]int{}, Inconclusive: map[string]int{}, Foreign: map[string]int{}, ForeignMsg: map[string]string{}}
 	hashes := map[uint64]struct{}{}
@@ -331,7 +379,7 @@ func WorkerMain(t *testing.T, engine, family string, c Case) {
 	sum.WallSeconds = time.Since(start).Seconds()
 	b, _ := json.Marshal(sum)
 	fmt.Printf("SUMMARY %s\n", b)
-	if out := os.Getenv("VERIF_OUT"); out != "" {
+	if out := Cfg("VERIF_OUT"); out != "" {
 		_ = os.WriteFile(out, b, 0o644)
 	}
 }
